@@ -1422,4 +1422,457 @@ theorem load_ids (E : Env) (cu0 : Option CU) (text : Str) : IdsOk (loadUsers E c
     · exact userFinish_ids E _ hl
     · exact hl
 
+/-! ## a load that stops part-way leaves a record with an id behind; with such a record every later
+load of a written file stops at its first line (nothing is loaded) -/
+
+/-- the class attribute holds a record that already has an id: the next `user` line raises -/
+def Stuck (cu : Option CU) : Prop := ∃ c, cu = some c ∧ c.id.isSome = true
+
+/-- a leftover record without id is a pristine `IrcUser()` -/
+def CuFresh (cu : Option CU) : Prop := ∀ c, cu = some c → c.id = none → c.u = {}
+
+theorem userFinish_cu (E : Env) (st : UState) (j : Nat) (w : User) (hst : st.cu = some { id := some j, u := w }) :
+    ((userFinish E st).2 = none → (userFinish E st).1.cu = none ∨ (w.name = [] ∧ (userFinish E st).1.cu = st.cu)) ∧
+    ((userFinish E st).2 ≠ none → Stuck (userFinish E st).1.cu) := by
+  unfold userFinish
+  simp only [hst]
+  split
+  · rename_i hn
+    exact ⟨fun _ => Or.inr ⟨by simpa using hn, hst.symm ▸ rfl⟩, fun h => absurd rfl h⟩
+  · split
+    · exact ⟨fun _ => Or.inl rfl, fun h => absurd rfl h⟩
+    · split
+      · exact ⟨fun _ => Or.inl rfl, fun h => absurd rfl h⟩
+      · exact ⟨fun h => (by simp at h), fun _ => ⟨_, rfl, rfl⟩⟩
+    · exact ⟨fun h => (by simp at h), fun _ => ⟨_, rfl, rfl⟩⟩
+
+theorem withCu_keeps_id (st : UState) (f : CU → CU × Option Err) (c : CU) (i : Nat) (hst : st.cu = some c)
+    (hid : c.id = some i) (hf : ∀ x, (f x).1.id = x.id) : ∃ c', (withCu st f).1.cu = some c' ∧ c'.id = some i := by
+  unfold withCu
+  simp only [hst, hid, Option.isNone_some, Bool.false_eq_true, if_false]
+  exact ⟨(f c).1, rfl, by rw [hf, hid]⟩
+
+theorem userCall_keeps_id (st : UState) (c : CU) (i : Nat) (k r : Str) (hst : st.cu = some c) (hid : c.id = some i) :
+    ∃ c', (userCall st k r).1.cu = some c' ∧ c'.id = some i := by
+  have same : ∃ c', st.cu = some c' ∧ c'.id = some i := ⟨c, hst, hid⟩
+  unfold userCall
+  by_cases h0 : k = kwUser
+  · rw [if_pos h0]
+    simp only [hst, hid, Option.isSome_some, if_true]
+    exact ⟨c, rfl, hid⟩
+  rw [if_neg h0]
+  have bf : ∀ (g : User → Bool → User) (x : CU), (boolField x r g).1.id = x.id := by
+    intro g x; unfold boolField; split <;> rfl
+  repeat' (first
+    | exact withCu_keeps_id st _ c i hst hid (fun _ => rfl)
+    | exact withCu_keeps_id st _ c i hst hid (bf _)
+    | exact withCu_keeps_id st _ c i hst hid (fun x => by split <;> rfl)
+    | exact same
+    | split)
+
+/-- position of the loop inside the record of account `i`, as far as the class attribute goes -/
+def AtRec (i : Nat) (rs : RState UState) : Prop :=
+  rs.hasCreator = true ∧ ∃ w, rs.st.cu = some { id := some i, u := w } ∧
+    (rs.indent = some 2 ∨ (rs.indent = some 0 ∧ w.name = []))
+
+theorem readParsed_atRec (E : Env) (i : Nat) (rs : RState UState) (P : Parsed) (h : AtRec i rs)
+    (hP : P = .blank ∨ P = .bad 2 ∨ ∃ k r, P = .cmd 2 k r) :
+    ((readParsed (userCreator E) rs P).2 = none → AtRec i (readParsed (userCreator E) rs P).1) ∧
+    ((readParsed (userCreator E) rs P).2 ≠ none → Stuck (readParsed (userCreator E) rs P).1.st.cu) := by
+  obtain ⟨hcr, w, hw, hind⟩ := h
+  -- the indentation change of the first body line: `finish` does nothing (no name yet)
+  have hre : ∃ rs', reindent (userCreator E) rs 2 = (rs', none) ∧ rs'.hasCreator = true ∧ rs'.indent = some 2 ∧
+      rs'.st.cu = some { id := some i, u := w } := by
+    unfold reindent
+    rcases hind with h2 | ⟨h0, hname⟩
+    · simp only [h2, if_true]
+      exact ⟨rs, rfl, hcr, h2, hw⟩
+    · have hne : rs.indent ≠ some 2 := by rw [h0]; simp
+      have hfin : (userCreator E).finish rs.st = (rs.st, none) := by
+        show userFinish E rs.st = _
+        unfold userFinish
+        simp [hw, hname]
+      have hnew : (userCreator E).new rs.st = rs.st := by
+        show userNew rs.st = _
+        unfold userNew; rw [hw]
+      simp only [hne, if_false, hcr, if_true, hfin, hnew]
+      exact ⟨_, rfl, rfl, rfl, hw⟩
+  obtain ⟨rs', hrs', hcr', hind', hcu'⟩ := hre
+  rcases hP with rfl | rfl | ⟨k, r, rfl⟩
+  · exact ⟨fun _ => ⟨hcr, w, hw, hind⟩, fun h => absurd rfl h⟩
+  · unfold readParsed
+    simp only [hrs']
+    exact ⟨fun h => (by simp at h), fun _ => ⟨_, hcu', rfl⟩⟩
+  · unfold readParsed
+    simp only [hrs']
+    have e3 : (userCreator E).call rs'.st k r = userCall rs'.st k r := rfl
+    rw [e3]
+    obtain ⟨c', hc', hid'⟩ := userCall_keeps_id rs'.st _ i k r hcu' rfl
+    refine ⟨fun _ => ⟨hcr', c'.u, ?_, Or.inl hind'⟩, fun _ => ⟨c', hc', by rw [hid']; rfl⟩⟩
+    show (userCall rs'.st k r).1.cu = _
+    rw [hc']
+    cases c' with
+    | mk id u => simp only at hid'; rw [hid']
+
+theorem readLines_atRec (E : Env) (i : Nat) (ls : List Str) (rs : RState UState) (h : AtRec i rs)
+    (hl : ∀ l ∈ ls, parseLine l = .blank ∨ parseLine l = .bad 2 ∨ ∃ k r, parseLine l = .cmd 2 k r) :
+    ((readLines (userCreator E) rs ls).2 = none → AtRec i (readLines (userCreator E) rs ls).1) ∧
+    ((readLines (userCreator E) rs ls).2 ≠ none → Stuck (readLines (userCreator E) rs ls).1.st.cu) := by
+  induction ls generalizing rs with
+  | nil => exact ⟨fun _ => h, fun h => absurd rfl h⟩
+  | cons l ls ih =>
+    have h1 := readParsed_atRec E i rs (parseLine l) h (hl l (by simp))
+    unfold readLines
+    simp only []
+    cases he : (readParsed (userCreator E) rs (parseLine l)).2 with
+    | some e => exact ⟨fun h => (by simp at h), fun _ => h1.2 (by rw [he]; simp)⟩
+    | none => exact ih _ (h1.1 he) (fun x hx => hl x (by simp [hx]))
+
+/-- between two records, as far as the class attribute goes -/
+def AtGap (rs : RState UState) : Prop :=
+  (rs.hasCreator = false ∧ rs.indent = none ∧ rs.modified = false ∧ CuFresh rs.st.cu) ∨ ∃ j, AtRec j rs
+
+theorem header_atGap (E : Env) (i : Nat) (rs : RState UState) (h : AtGap rs) :
+    ((readParsed (userCreator E) rs (.cmd 0 kwUser (natDec i))).2 = none →
+        AtRec i (readParsed (userCreator E) rs (.cmd 0 kwUser (natDec i))).1) ∧
+    ((readParsed (userCreator E) rs (.cmd 0 kwUser (natDec i))).2 ≠ none →
+        Stuck (readParsed (userCreator E) rs (.cmd 0 kwUser (natDec i))).1.st.cu) := by
+  have hcall_fresh : ∀ db : UsersDb, userCall ⟨some {}, db⟩ kwUser (natDec i) = (⟨some { id := some i, u := {} }, db⟩, none) :=
+    fun db => userCall_user db i _ (parseNat_natDec i)
+  have e2 : ∀ s, (userCreator E).new s = userNew s := fun _ => rfl
+  have e3 : ∀ s k r, (userCreator E).call s k r = userCall s k r := fun _ _ _ => rfl
+  have stuck_call : ∀ (st : UState) (c : CU) (j : Nat), st.cu = some c → c.id = some j →
+      userCall st kwUser (natDec i) = (st, some .valueError) := by
+    intro st c j hc hj
+    unfold userCall
+    simp [hc, hj]
+  rcases h with ⟨hcr, hind, _, hfresh⟩ | ⟨j, hcr, w, hw, hind⟩
+  · have hne : rs.indent ≠ some 0 := by rw [hind]; simp
+    unfold readParsed reindent
+    simp only [hne, if_false, hcr, Bool.false_eq_true, e2, e3]
+    cases hc : rs.st.cu with
+    | none =>
+      have : userNew rs.st = ⟨some {}, rs.st.db⟩ := by unfold userNew; rw [hc]
+      rw [this, hcall_fresh]
+      exact ⟨fun _ => ⟨rfl, {}, rfl, Or.inr ⟨rfl, rfl⟩⟩, fun h => absurd rfl h⟩
+    | some c =>
+      have hn : userNew rs.st = rs.st := by unfold userNew; rw [hc]
+      rw [hn]
+      cases hid : c.id with
+      | some n =>
+        rw [stuck_call rs.st c n hc hid]
+        exact ⟨fun h => (by simp at h), fun _ => ⟨c, hc, by rw [hid]; rfl⟩⟩
+      | none =>
+        have hu := hfresh c hc hid
+        have : rs.st = ⟨some {}, rs.st.db⟩ := by
+          cases hst : rs.st with
+          | mk cu db =>
+            rw [hst] at hc
+            simp only at hc
+            subst hc
+            cases c with
+            | mk id u => simp only at hid hu; subst hid; subst hu; rfl
+        rw [this, hcall_fresh]
+        exact ⟨fun _ => ⟨rfl, {}, rfl, Or.inr ⟨rfl, rfl⟩⟩, fun h => absurd rfl h⟩
+  · unfold readParsed reindent
+    rcases hind with h2 | ⟨h0, _⟩
+    · have hne : rs.indent ≠ some 0 := by rw [h2]; simp
+      have e1 : (userCreator E).finish rs.st = userFinish E rs.st := rfl
+      simp only [hne, if_false, hcr, if_true, e1, e2, e3]
+      obtain ⟨hok, herr⟩ := userFinish_cu E rs.st j w hw
+      cases hf : (userFinish E rs.st).2 with
+      | some e =>
+        simp only []
+        exact ⟨fun h => (by simp at h), fun _ => herr (by rw [hf]; simp)⟩
+      | none =>
+        simp only []
+        rcases hok hf with hnone | ⟨_, hsame⟩
+        · have : userNew (userFinish E rs.st).1 = ⟨some {}, (userFinish E rs.st).1.db⟩ := by
+            unfold userNew; rw [hnone]
+          rw [this, hcall_fresh]
+          exact ⟨fun _ => ⟨rfl, {}, rfl, Or.inr ⟨rfl, rfl⟩⟩, fun h => absurd rfl h⟩
+        · have hc' : (userFinish E rs.st).1.cu = some { id := some j, u := w } := by rw [hsame, hw]
+          have : userNew (userFinish E rs.st).1 = (userFinish E rs.st).1 := by unfold userNew; rw [hc']
+          rw [this, stuck_call _ _ j hc' rfl]
+          exact ⟨fun h => (by simp at h), fun _ => ⟨_, hc', rfl⟩⟩
+    · simp only [h0, if_true, e3]
+      rw [stuck_call rs.st _ j hw rfl]
+      exact ⟨fun h => (by simp at h), fun _ => ⟨_, hw, rfl⟩⟩
+
+theorem bodyParsed_weak {orig : List (Nat × User)} {i : Nat} {P : Parsed} (h : BodyParsed orig i P) :
+    P = .blank ∨ P = .bad 2 ∨ ∃ k r, P = .cmd 2 k r := by
+  rcases h with h | h | ⟨k, r, h, _⟩
+  · exact Or.inl h
+  · exact Or.inr (Or.inl h)
+  · exact Or.inr (Or.inr ⟨k, r, h⟩)
+
+theorem blocks_atGap (E : Env) (orig : List (Nat × User)) (bs : List (Nat × User))
+    (hbs : ∀ b ∈ bs, b ∈ orig ∧ SafeUser b.2) (rs : RState UState) (h : AtGap rs) :
+    ((readLines (userCreator E) rs ((bs.flatMap userBlock).flatMap phys)).2 = none →
+      AtGap (readLines (userCreator E) rs ((bs.flatMap userBlock).flatMap phys)).1) ∧
+    ((readLines (userCreator E) rs ((bs.flatMap userBlock).flatMap phys)).2 ≠ none →
+      Stuck (readLines (userCreator E) rs ((bs.flatMap userBlock).flatMap phys)).1.st.cu) := by
+  induction bs generalizing rs with
+  | nil => exact ⟨fun _ => h, fun h => absurd rfl h⟩
+  | cons b bs ih =>
+    obtain ⟨hb, hs⟩ := hbs b (by simp)
+    obtain ⟨_, tail, htail, hparsed⟩ := block_phys orig b hb hs
+    simp only [List.flatMap_cons, List.flatMap_append, htail, List.cons_append]
+    unfold readLines
+    rw [parseLine_userHeader]
+    have hh := header_atGap E b.1 rs h
+    simp only []
+    cases he : (readParsed (userCreator E) rs (.cmd 0 kwUser (natDec b.1))).2 with
+    | some e => exact ⟨fun h => (by simp at h), fun _ => hh.2 (by rw [he]; simp)⟩
+    | none =>
+      simp only []
+      rw [readLines_append]
+      have ht := readLines_atRec E b.1 tail _ (hh.1 he) (fun l hl => bodyParsed_weak (hparsed l hl))
+      cases he2 : (readLines (userCreator E) (readParsed (userCreator E) rs (.cmd 0 kwUser (natDec b.1))).1 tail).2 with
+      | some e =>
+        have : readLines (userCreator E) (readParsed (userCreator E) rs (.cmd 0 kwUser (natDec b.1))).1 tail =
+            ((readLines (userCreator E) (readParsed (userCreator E) rs (.cmd 0 kwUser (natDec b.1))).1 tail).1, some e) := by
+          rw [← he2]
+        rw [this]
+        exact ⟨fun h => (by simp at h), fun _ => ht.2 (by rw [he2]; simp)⟩
+      | none =>
+        have : readLines (userCreator E) (readParsed (userCreator E) rs (.cmd 0 kwUser (natDec b.1))).1 tail =
+            ((readLines (userCreator E) (readParsed (userCreator E) rs (.cmd 0 kwUser (natDec b.1))).1 tail).1, none) := by
+          rw [← he2]
+        rw [this]
+        simp only []
+        exact ih (fun x hx => hbs x (by simp [hx])) _ (Or.inr ⟨b.1, ht.1 he2⟩)
+
+theorem dump_lines (db : UsersDb) (hsafe : ∀ p ∈ db.users, SafeUser p.2) :
+    (∀ b ∈ sortedUsers db, b ∈ db.users ∧ SafeUser b.2) ∧
+    fileLines (dumpUsers db) = ((sortedUsers db).flatMap userBlock).flatMap phys := by
+  have hmem : ∀ b ∈ sortedUsers db, b ∈ db.users ∧ SafeUser b.2 := by
+    intro b hb
+    have := (mem_sortBy _ _ _).mp hb
+    exact ⟨this, hsafe b this⟩
+  refine ⟨hmem, ?_⟩
+  unfold dumpUsers
+  apply fileLines_unlines_lf
+  intro l hl
+  simp only [List.mem_flatMap] at hl
+  obtain ⟨b, hb, hl⟩ := hl
+  exact (block_phys db.users b (hmem b hb).1 (hmem b hb).2).1 l hl
+
+/-- **A load of a written file that stops part-way leaves a record with an id in the class
+attribute** (so that every later load stops at its first `user` line). -/
+theorem load_err_stuck (E : Env) (cu0 : Option CU) (db : UsersDb) (hcu : CuFresh cu0)
+    (hsafe : ∀ p ∈ db.users, SafeUser p.2) :
+    (loadUsers E cu0 (dumpUsers db)).2 ≠ none → Stuck (loadUsers E cu0 (dumpUsers db)).1.cu := by
+  obtain ⟨hmem, hlines⟩ := dump_lines db hsafe
+  unfold loadUsers readText
+  rw [hlines]
+  have hstart : AtGap ({ st := ⟨cu0, {}⟩ } : RState UState) := Or.inl ⟨rfl, rfl, rfl, hcu⟩
+  obtain ⟨h1, h2⟩ := blocks_atGap E db.users (sortedUsers db) hmem _ hstart
+  simp only []
+  cases he : (readLines (userCreator E) { st := ⟨cu0, {}⟩ } (((sortedUsers db).flatMap userBlock).flatMap phys)).2 with
+  | some e => intro _; exact h2 (by rw [he]; simp)
+  | none =>
+    simp only []
+    rcases h1 he with ⟨_, _, hm, _⟩ | ⟨j, _, w, hw, _⟩
+    · have : (readLines (userCreator E) { st := ⟨cu0, {}⟩ } (((sortedUsers db).flatMap userBlock).flatMap phys)).1.modified = false := hm
+      simp only [this, Bool.false_eq_true, if_false]
+      intro h; exact absurd rfl h
+    · split
+      · intro herr
+        exact (userFinish_cu E _ j w hw).2 herr
+      · intro h; exact absurd rfl h
+
+/-- **With such a record, loading any written file loads nothing** and leaves the record there. -/
+theorem load_stuck (E : Env) (cu0 : Option CU) (db : UsersDb) (hs : Stuck cu0)
+    (hsafe : ∀ p ∈ db.users, SafeUser p.2) :
+    (loadUsers E cu0 (dumpUsers db)).1.db.users = [] ∧ (loadUsers E cu0 (dumpUsers db)).1.cu = cu0 := by
+  obtain ⟨c, hc, hid⟩ := hs
+  obtain ⟨j, hj⟩ : ∃ j, c.id = some j := by
+    cases h : c.id with
+    | none => rw [h] at hid; cases hid
+    | some j => exact ⟨j, rfl⟩
+  obtain ⟨hmem, hlines⟩ := dump_lines db hsafe
+  unfold loadUsers readText
+  rw [hlines]
+  cases hsrt : sortedUsers db with
+  | nil => simp [readLines]
+  | cons b bs =>
+    obtain ⟨hb, hsb⟩ := hmem b (by rw [hsrt]; simp)
+    obtain ⟨_, tail, htail, _⟩ := block_phys db.users b hb hsb
+    simp only [List.flatMap_cons, List.flatMap_append, htail, List.cons_append]
+    unfold readLines
+    rw [parseLine_userHeader]
+    have e2 : ∀ s, (userCreator E).new s = userNew s := fun _ => rfl
+    have e3 : ∀ s k r, (userCreator E).call s k r = userCall s k r := fun _ _ _ => rfl
+    have hn : userNew (⟨cu0, {}⟩ : UState) = ⟨cu0, {}⟩ := by unfold userNew; simp only [hc]
+    have hcall : userCall (⟨cu0, {}⟩ : UState) kwUser (natDec b.1) = (⟨cu0, {}⟩, some .valueError) := by
+      unfold userCall
+      simp [hc, hj]
+    unfold readParsed reindent
+    simp [e2, e3, hn, hcall]
+
+/-! ## whatever the file: a leftover record without id is pristine -/
+
+theorem withCu_noid (st : UState) (f : CU → CU × Option Err) (h : ∀ c, st.cu = some c → c.id = none) :
+    (withCu st f).1 = st := by
+  unfold withCu
+  cases hc : st.cu with
+  | none => rfl
+  | some c => simp [h c hc]
+
+theorem userCall_fresh (st : UState) (k r : Str) (h : CuFresh st.cu) : CuFresh (userCall st k r).1.cu := by
+  cases hc : st.cu with
+  | some c =>
+    cases hid : c.id with
+    | some i =>
+      obtain ⟨c', hc', hid'⟩ := userCall_keeps_id st c i k r hc hid
+      intro x hx hn
+      rw [hc'] at hx
+      injection hx with hx
+      subst hx
+      rw [hid'] at hn
+      cases hn
+    | none =>
+      have hno : ∀ x, st.cu = some x → x.id = none := by
+        intro x hx; rw [hc] at hx; injection hx with hx; subst hx; exact hid
+      unfold userCall
+      by_cases h0 : k = kwUser
+      · rw [if_pos h0]
+        simp only [hc, hid, Option.isSome_none, Bool.false_eq_true, if_false]
+        split
+        · intro x hx hn
+          simp only [Option.some.injEq] at hx
+          subst hx
+          cases hn
+        · exact h
+      · rw [if_neg h0]
+        (repeat' split) <;> first
+          | (rw [withCu_noid st _ hno]; exact h)
+          | exact h
+  | none =>
+    have hno : ∀ x, st.cu = some x → x.id = none := by intro x hx; rw [hc] at hx; cases hx
+    have h' : CuFresh st.cu := h
+    unfold userCall
+    by_cases h0 : k = kwUser
+    · rw [if_pos h0]
+      simp only [hc]
+      intro x hx; cases hx
+    rw [if_neg h0]
+    by_cases h1 : k = kwName
+    · rw [if_pos h1, withCu_noid st _ hno]; exact h'
+    rw [if_neg h1]
+    by_cases h2 : k = kwIgnore
+    · rw [if_pos h2, withCu_noid st _ hno]; exact h'
+    rw [if_neg h2]
+    by_cases h3 : k = kwSecure
+    · rw [if_pos h3, withCu_noid st _ hno]; exact h'
+    rw [if_neg h3]
+    by_cases h4 : k = kwHashed
+    · rw [if_pos h4, withCu_noid st _ hno]; exact h'
+    rw [if_neg h4]
+    by_cases h5 : k = kwPassword
+    · rw [if_pos h5, withCu_noid st _ hno]; exact h'
+    rw [if_neg h5]
+    by_cases h6 : k = kwHostmask
+    · rw [if_pos h6, withCu_noid st _ hno]; exact h'
+    rw [if_neg h6]
+    by_cases h7 : k = kwNicks
+    · rw [if_pos h7, withCu_noid st _ hno]; exact h'
+    rw [if_neg h7]
+    by_cases h8 : k = kwCapability
+    · rw [if_pos h8, withCu_noid st _ hno]; exact h'
+    rw [if_neg h8]
+    by_cases h9 : k = kwGpgkey
+    · rw [if_pos h9, withCu_noid st _ hno]; exact h'
+    rw [if_neg h9]
+    split <;> exact h'
+
+theorem userFinish_fresh (E : Env) (st : UState) (h : CuFresh st.cu) : CuFresh (userFinish E st).1.cu := by
+  unfold userFinish
+  cases hc : st.cu with
+  | none => exact h
+  | some cu =>
+    simp only []
+    split
+    · exact h
+    · split
+      · exact h
+      · rename_i id hid
+        split
+        · intro x hx; cases hx
+        · split
+          · intro x hx; cases hx
+          · intro x hx hn
+            simp only [Option.some.injEq] at hx
+            subst hx
+            simp [hid] at hn
+        · intro x hx hn
+          have hx' : some cu = some x := hx
+          injection hx' with hx'
+          subst hx'
+          rw [hid] at hn
+          cases hn
+
+theorem userNew_fresh (st : UState) (h : CuFresh st.cu) : CuFresh (userNew st).cu := by
+  unfold userNew
+  split
+  · intro x hx _
+    simp only [Option.some.injEq] at hx
+    subst hx; rfl
+  · exact h
+
+theorem reindent_fresh (E : Env) (rs : RState UState) (ind : Nat) (h : CuFresh rs.st.cu) :
+    CuFresh (reindent (userCreator E) rs ind).1.st.cu := by
+  unfold reindent
+  split
+  · exact h
+  · have e1 : (userCreator E).finish rs.st = userFinish E rs.st := rfl
+    have e2 : ∀ s, (userCreator E).new s = userNew s := fun _ => rfl
+    rw [e1]
+    simp only [e2]
+    have hf : CuFresh (if rs.hasCreator = true then userFinish E rs.st else (rs.st, none)).1.cu := by
+      split
+      · exact userFinish_fresh E rs.st h
+      · exact h
+    generalize (if rs.hasCreator = true then userFinish E rs.st else (rs.st, none)) = r at hf ⊢
+    split
+    · exact hf
+    · exact userNew_fresh _ hf
+
+theorem readLines_fresh (E : Env) (rs : RState UState) (ls : List Str) (h : CuFresh rs.st.cu) :
+    CuFresh (readLines (userCreator E) rs ls).1.st.cu := by
+  induction ls generalizing rs with
+  | nil => exact h
+  | cons l ls ih =>
+    have h1 : CuFresh (readParsed (userCreator E) rs (parseLine l)).1.st.cu := by
+      unfold readParsed
+      cases parseLine l with
+      | blank => exact h
+      | bad i =>
+        simp only []
+        have := reindent_fresh E rs i h
+        split <;> exact this
+      | cmd i k r =>
+        simp only []
+        have hr := reindent_fresh E rs i h
+        split
+        · exact hr
+        · exact userCall_fresh _ k r hr
+    unfold readLines
+    simp only []
+    split
+    · exact h1
+    · exact ih _ h1
+
+theorem load_fresh (E : Env) (cu0 : Option CU) (text : Str) (h : CuFresh cu0) :
+    CuFresh (loadUsers E cu0 text).1.cu := by
+  unfold loadUsers readText
+  have hl := readLines_fresh E { st := ⟨cu0, {}⟩ } (fileLines text) h
+  simp only []
+  split
+  · exact hl
+  · split
+    · exact userFinish_fresh E _ hl
+    · exact hl
+
 end C16
